@@ -9,6 +9,7 @@ and then use trimesh operations on them at any point.
 """
 
 import abc
+import copy
 
 import numpy as np
 
@@ -30,8 +31,10 @@ class Primitive(Trimesh):
     """
 
     # ignore superclass copy directives
-    __copy__ = None
     __deepcopy__ = None
+
+    def __copy__(self):
+        return self.copy()
 
     def __init__(self):
         # run the Trimesh constructor with no arguments
@@ -135,6 +138,11 @@ class Primitive(Trimesh):
         kwargs.update(self.to_dict())
         # remove the type indicator, i.e. `Cylinder`
         kwargs.pop("kind")
+        # `to_dict` follows the export schema which doesn't have every
+        # constructor argument, i.e. `sections` or `subdivisions`
+        for key in self.primitive._defaults:
+            if key not in kwargs:
+                kwargs[key] = copy.deepcopy(self._data[key])
         # create a new object with kwargs
         primitive_copy = type(self)(**kwargs)
 
@@ -143,11 +151,11 @@ class Primitive(Trimesh):
             primitive_copy.visual = self.visual.copy()
 
         # copy metadata
-        primitive_copy.metadata = self.metadata.copy()
+        primitive_copy.metadata = copy.deepcopy(self.metadata)
 
         for k, v in self._data.data.items():
             if k not in primitive_copy._data:
-                primitive_copy._data[k] = v
+                primitive_copy._data[k] = copy.deepcopy(v)
 
         return primitive_copy
 
